@@ -123,7 +123,124 @@ func failingOp(c c13Case) (obs, bad string) {
 	return obs, ""
 }
 
+// c13Sweep is one call of the parameter-grid sweep: WHATEVER fails is inspected (not only calls known to fail).
+type c13Sweep struct {
+	Op     string `json:"op"`
+	Secret string `json:"secret"`
+	I      []int  `json:"grid_index"`
+}
+
+var (
+	swDigits = []int{0, 1, 6, 8, 10, 11, 255}
+	swAlgos  = []int{0, 1, 2, 3, 4, 7, 255}
+	swPeriod = []uint{0, 1, 30}
+	swSkew   = []uint{0, 1, 10, 11, 1 << 40}
+	swCtr    = []uint64{0, 1, 1<<64 - 1}
+	swText   = []string{"", "I", "a b", "x:y"}
+	swURLNum = []string{"", "6", "abc", "-1", "256", "99999999999999999999"}
+	swURLAlg = []string{"", "SHA1", "MD5", "sha512"}
+	swTypes  = []string{"totp", "hotp", "xotp", ""}
+)
+
+func sweepDims(op string) []int {
+	switch op {
+	case "GenerateHOTP":
+		return []int{len(swCtr), len(swDigits), len(swAlgos)}
+	case "GenerateTOTP":
+		return []int{len(swPeriod), len(swDigits), len(swAlgos)}
+	case "ValidateHOTP":
+		return []int{4, len(swSkew), len(swDigits), len(swAlgos)}
+	case "ValidateTOTP":
+		return []int{4, len(swSkew), len(swDigits), len(swAlgos), len(swPeriod)}
+	case "GenerateURL":
+		return []int{2, len(swText), len(swText), len(swDigits), len(swAlgos), len(swPeriod)}
+	case "ParseURL":
+		return []int{len(swTypes), 3, len(swURLNum), len(swURLAlg), len(swURLNum)}
+	case "OCRA":
+		return []int{2, 5, 4, 3}
+	}
+	return nil
+}
+
+func sweepCall(c c13Sweep) (obs, bad string) {
+	_, key := ref.B32Classify(c.Secret)
+	if key == nil {
+		key = []byte{}
+	}
+	ix := c.I
+	t := time.Unix(1111111109, 0)
+	var err error
+	var accepted []string
+	codes := func(good string) string { return []string{good, "000000", good + "1", ""}[ix[0]] }
+	p := try(func() {
+		switch c.Op {
+		case "GenerateHOTP":
+			_, err = otp.GenerateHOTP(c.Secret, swCtr[ix[0]], &otp.Param{Digits: otp.Digits(swDigits[ix[1]]), Algorithm: otp.Algorithm(swAlgos[ix[2]])})
+			accepted = []string{ref.HOTP(key, swCtr[ix[0]], 6, 0), ref.HOTP(key, swCtr[ix[0]], 8, 0), ref.HOTP(key, swCtr[ix[0]], 10, 0)}
+		case "GenerateTOTP":
+			_, err = otp.GenerateTOTP(c.Secret, t, &otp.Param{Period: swPeriod[ix[0]], Digits: otp.Digits(swDigits[ix[1]]), Algorithm: otp.Algorithm(swAlgos[ix[2]])})
+			accepted = []string{ref.HOTP(key, ref.Step(1111111109, uint64(swPeriod[ix[0]])), 6, 0), ref.HOTP(key, ref.Step(1111111109, uint64(swPeriod[ix[0]])), 8, 0)}
+		case "ValidateHOTP":
+			good := ref.HOTP(key, 5, 6, 0)
+			accepted = hotpWindow(key, 5, 10, 6, 0)
+			_, err = otp.ValidateHOTP(c.Secret, codes(good), 5, &otp.Param{Skew: swSkew[ix[1]], Digits: otp.Digits(swDigits[ix[2]]), Algorithm: otp.Algorithm(swAlgos[ix[3]])})
+		case "ValidateTOTP":
+			good := ref.HOTP(key, ref.Step(1111111109, uint64(swPeriod[ix[4]])), 6, 0)
+			accepted = []string{good}
+			_, err = otp.ValidateTOTP(c.Secret, codes(good), t, &otp.Param{Skew: swSkew[ix[1]], Digits: otp.Digits(swDigits[ix[2]]), Algorithm: otp.Algorithm(swAlgos[ix[3]]), Period: swPeriod[ix[4]]})
+		case "GenerateURL":
+			up := otp.URLParam{Issuer: swText[ix[1]], AccountName: swText[ix[2]], Secret: c.Secret, Digits: otp.Digits(swDigits[ix[3]]), Algorithm: otp.Algorithm(swAlgos[ix[4]]), Period: swPeriod[ix[5]]}
+			if ix[0] == 0 {
+				_, err = otp.GenerateTOTPURL(up)
+			} else {
+				_, err = otp.GenerateHOTPURL(up)
+			}
+		case "ParseURL":
+			label := []string{"I:a", "alice", ""}[ix[1]]
+			q := "secret=" + url.QueryEscape(c.Secret)
+			if v := swURLNum[ix[2]]; v != "" {
+				q += "&digits=" + v
+			}
+			if v := swURLAlg[ix[3]]; v != "" {
+				q += "&algorithm=" + v
+			}
+			if v := swURLNum[ix[4]]; v != "" {
+				q += "&period=" + v
+			}
+			if u, perr := url.Parse("otpauth://" + swTypes[ix[0]] + "/" + label + "?" + q); perr == nil {
+				_, err = otp.ParseOTPAuthURL(u)
+			}
+		case "OCRA":
+			cfg := otp.SuiteConfig{Raw: []string{"OCRA-1:HOTP-SHA1-6:QN08", "x"}[ix[0]], Digits: []int{6, 0, 3, 11, 200}[ix[1]], Hash: otp.Algorithm([]int{0, 2, 3, 255}[ix[2]]), IncludeChallenge: true, Challenge: 1}
+			in := otp.OCRAInput{Challenge: [][]byte{patt(16, 1), {1}, nil}[ix[3]]}
+			_, err = otp.GenerateOCRA(c.Secret, cfg, in)
+			if err == nil {
+				_, err = otp.ValidateOCRA(c.Secret, "12345", cfg, in)
+			}
+			var su otp.Suite = otp.RawSuite{SuiteConfig: cfg}
+			if err == nil {
+				_, err = otp.GenerateOCRA(c.Secret, su, otp.OCRAInput{})
+			}
+		}
+	})
+	if p != "" {
+		return "panic:" + p, "" // panics are C10's concern
+	}
+	obs = errStr(err)
+	if err == nil {
+		return obs, ""
+	}
+	if l := leaks(err.Error(), c.Secret, key, accepted); l != "" {
+		return obs, "error text discloses " + l
+	}
+	if st := strings.ToLower(strings.TrimSpace(c.Secret)); len(st) >= 8 && strings.Contains(strings.ToLower(err.Error()), st) {
+		return obs, "error text echoes the submitted secret text"
+	}
+	return obs, ""
+}
+
 func c13(r *ev.Run) {
+	r.Scenario("parameter-sweep", func(raw []byte) (string, string) { return sweepCall(unjson[c13Sweep](raw)) })
 	r.Scenario("failing-op", func(raw []byte) (string, string) { return failingOp(unjson[c13Case](raw)) })
 	r.Scenario("rest-error-body", func(raw []byte) (string, string) {
 		q := unjson[rreq](raw)
@@ -167,6 +284,41 @@ func c13(r *ev.Run) {
 			r.DistinctS(op + obs)
 		}
 	}
+	// parameter-grid sweep: every operation that is given a secret, over a grid of all its other parameters; whatever
+	// returns an error is inspected (a change may make a call fail that never failed before)
+	var sw, swErrs int64
+	for _, op := range []string{"GenerateHOTP", "GenerateTOTP", "ValidateHOTP", "ValidateTOTP", "GenerateURL", "ParseURL", "OCRA"} {
+		dims := sweepDims(op)
+		total := 1
+		for _, d := range dims {
+			total *= d
+		}
+		for si, sct := range secs {
+			if si%6 > 1 && si%6 != 4 {
+				continue // per key length: canonical, lower-case and one malformed spelling
+			}
+			for k := 0; k < total; k++ {
+				ix := make([]int, len(dims))
+				x := k
+				for d := range dims {
+					ix[d] = x % dims[d]
+					x /= dims[d]
+				}
+				c := c13Sweep{op, sct, ix}
+				obs, bad := sweepCall(c)
+				sw++
+				if obs != "<nil>" {
+					swErrs++
+				}
+				if bad != "" {
+					r.Fail("parameter-sweep", fmt.Sprintf("%s %v: %s", op, ix, bad), c, bad, obs)
+				}
+			}
+		}
+	}
+	n += sw
+	r.Set("parameter_sweep_calls", sw)
+	r.Set("parameter_sweep_failing_calls_inspected", swErrs)
 	// REST error bodies are error reports too: failing requests must not echo the secret or an accepted code
 	restInit13()
 	for _, sct := range secs {
